@@ -210,6 +210,8 @@ def run(ctx):
     ctx.traces += n_cost + n_solved
     ctx.exhaustive['binding: seeded trial vectors, sampled solved pairs'] = False
     ctx.stage('replay.Reformulate', edges=len(edges), cost_comparisons=n_cost, solved_pairs=n_solved)
+    if n_solved < 3:    # vacuity guard
+        raise MachineryError('only %d pairs of systems converged: the solved-level statements were not exercised' % n_solved)
 
 
 def solved_level(ctx, c, c2, label, clause, fails):
